@@ -59,6 +59,10 @@ def answer (w : List String) : String :=
     match mixed_step_memoization fuel (i 1) (i 2) with
     | .ok (t, a, b) => s!"{stepName t} {a} {b}"
     | .error e => "raise:" ++ errStr e
+  | some "tabulation" =>
+    match mixed_steps_tabulation (i 1) (i 2) with
+    | .ok t => String.intercalate ";" (t.map (fun row => String.intercalate "," (row.map (fun c => s!"{c.1} {c.2.1} {c.2.2}"))))
+    | .error e => "raise:" ++ errStr e
   | some "argmin" => showInt (argmin ((w.drop 1).map (fun s => s.toInt?.getD 0)))
   | some "singleMemory" => showEvs (singleMemory_iterator fuel 0 0 none (i 1) (i 2))
   | some "singleDisk" => showEvs (singleDisk_iterator fuel 0 0 none (w.getD 1 "0" = "1") false (i 2) (i 3))
